@@ -7,26 +7,12 @@ import GmqttVerif.Proofs.Session
   Sequential part: theorems about `Broker.connect` / `unregister` / `apiExpire` / `apiTerminate` of the wire-level
   broker model (tied to the code by stream `broker-session`). Interleaving part: `Takeover`, a transition system
   whose atomic steps are the critical sections of `lockDuplicatedID` / `registerClient` / `unregisterClient`.
+
+  The vocabulary (`afterDisplace`, `deadlinePassed`, `connackOf`, `Step`, `stepB`, `runB`, the invariant `WF`) and all
+  helper lemmas are in `Proofs/Session.lean` (+ `Proofs/SessionBasic|Poll|Steps|Takeover.lean`).
 -/
 namespace GmqttVerif.Broker
 open GmqttVerif.Deliver
-
-/-- the state in which `connect r` takes its decision: an online connection with the same client id has been
-    displaced (closed and unregistered) first -/
-def afterDisplace (b : B) (cid : String) : B :=
-  match b.cliOf? cid with
-  | some old => b.kick old.conn (some 0x8E)
-  | none => b
-
-/-- the stored session's expiry deadline (end of last connection + interval) has passed -/
-def deadlinePassed (b : B) (cid : String) : Bool :=
-  match b.offline.find? (fun (cd : String × Nat) => cd.1 == cid) with
-  | some cd => decide (b.now > cd.2)
-  | none => false
-
-/-- the CONNACK that `connect r` writes to its own connection -/
-def connackOf (b : B) (r : ConnectReq) : Option Pkt :=
-  ((b.connect r).out.filter (fun o => o.conn == r.conn && !o.poll)).map (·.pkt) |>.find? (fun p => match p with | .connack .. => true | _ => false)
 
 /-- 1. Session Present = 1 exactly when Clean Start = 0 and a session for the client id is stored whose expiry
     deadline — measured from the end of its last connection — has not passed. (Sessions ended by a clean start,
@@ -69,53 +55,24 @@ theorem resume_keeps_state (b : B) (r : ConnectReq) (hfresh : b.cli? r.conn = no
       s'.queue.items.map (fun e => (e.tag, e.pub, e.id, e.qos)) = s0.queue.items.map (fun e => (e.tag, e.pub, e.id, e.qos)) :=
   connect_resume_keeps b r hfresh s0 hs hres
 
-/-- 4. Otherwise the client starts from an empty session: no subscriptions, empty queue, no QoS 2 identifiers. -/
+/-- 4. Otherwise the client starts from an empty session: no subscriptions, empty queue, no QoS 2 identifiers.
+    (`hsubs`: subscriptions belong to stored sessions — part of the invariant `WF`, which holds in every state
+    reachable from the empty broker: `reachable_wellformed`. Without it the statement is false: a subscription
+    entry of an id that has no session would survive, because only an existing session is terminated.) -/
 theorem fresh_session_empty (b : B) (r : ConnectReq) (hfresh : b.cli? r.conn = none)
+    (hsubs : ∀ cs ∈ b.subs, (b.sess? cs.1).isSome = true)
     (hnot : ¬ (r.clean = false ∧ ((afterDisplace b r.cid).sess? r.cid).isSome = true ∧
                deadlinePassed (afterDisplace b r.cid) r.cid = false)) :
     let b' := b.connect r
     (∀ cs ∈ b'.subs, cs.1 ≠ r.cid) ∧
     ∃ s', b'.sess? r.cid = some s' ∧ s'.unack = [] ∧ s'.queue.items = [] :=
-  connect_fresh_empty b r hfresh hnot
+  connect_fresh_empty b r hfresh hsubs hnot
 
-/-- wire steps of the sequential broker model -/
-inductive Step
-  | connect (r : ConnectReq)
-  | subscribe (conn : String) (pid : Nat) (topics : List SubTopic) (id : Nat)
-  | unsubscribe (conn : String) (pid : Nat) (topics : List String)
-  | publish (r : PubReq)
-  | pubrel (conn : String) (pid : Nat)
-  | ack (conn : String) (id : Nat)
-  | pubrec (conn : String) (id code : Nat)
-  | disconnect (conn : String) (se : Option Nat)
-  | close (conn : String)
-  | apiPublish (m : Msg)
-  | apiTerminate (cid : String)
-  | apiExpire
-  | apiBackdate (cid : String) (secs : Nat)
-  | sleep (ms : Nat)
-  | pump
-
-def stepB (b : B) : Step → B
-  | .connect r => if (b.cli? r.conn).isSome then b else b.connect r     -- a connection name is used once
-  | .subscribe c p t i => b.subscribe c p t i
-  | .unsubscribe c p t => b.unsubscribe c p t
-  | .publish r => b.publish r
-  | .pubrel c p => b.pubrelIn c p
-  | .ack c i => b.ackOut c i
-  | .pubrec c i k => b.pubrecOut c i k
-  | .disconnect c se => b.disconnectIn c se
-  | .close c => b.closeIn c
-  | .apiPublish m => (b.deliverMsg "" m []).1
-  | .apiTerminate cid => b.apiTerminate cid
-  | .apiExpire => b.apiExpire
-  | .apiBackdate cid s => b.apiBackdate cid s
-  | .sleep ms => b.sleep ms
-  | .pump => b.pumpAll
-
-def runB (b : B) : List Step → B
-  | [] => b
-  | s :: ss => runB (stepB b s) ss
+/-- Every state reachable from the empty broker by wire steps is well-formed: client ids and connection names of the
+    online connections are pairwise distinct, every online client has a session, expiry deadlines are kept only for
+    ids that are not online, and subscriptions belong to stored sessions (`WF`; each `stepB` preserves it: `wf_step`). -/
+theorem reachable_wellformed (cfg : Cfg) (steps : List Step) : WF (runB { cfg := cfg } steps) :=
+  reachable_wf cfg steps
 
 /-- 5. At every moment at most one network connection is attached to a client id, and connection names are unique:
     for every history of wire steps from the empty broker. -/
@@ -150,9 +107,11 @@ theorem register_only_when_free (n : Nat) (s t : State n) (h : Reachable false s
   register_free n s t h i hst hreg
 
 /-- 7''. The code as it was (`asIs = true`: Unlock/Lock window when a session exists and nobody is online) violates
-    the property: with two processes there is a reachable state in which both are registered. (finding F44) -/
+    the property: there is a reachable state in which two processes are registered at once. Three processes are
+    needed: process 0 creates the stored session and leaves (a process that has registered never returns to
+    `start`), then processes 1 and 2 race through the window. (finding F44) -/
 theorem takeover_as_is_broken :
-    ∃ s : State 2, Reachable true s ∧ s.pc 0 = .registered ∧ s.pc 1 = .registered :=
+    ∃ s : State 3, Reachable true s ∧ s.pc 1 = .registered ∧ s.pc 2 = .registered :=
   as_is_two_registered
 
 end GmqttVerif.Takeover
